@@ -5,7 +5,7 @@ rc 2 means the harness depends on an internal name the refactoring changed."""
 import os, sys, json, subprocess, re, time, glob, shutil, tempfile, atexit
 V = os.path.dirname(os.path.dirname(os.path.abspath(__file__)))
 tier = sys.argv[1] if len(sys.argv) > 1 else 'quick'
-dirs = sys.argv[2:] or sorted(glob.glob(os.path.join(V, 'preserving', 'C*')))
+dirs = sys.argv[2:] or sorted(glob.glob(os.path.join(V, "preserving", "C*")) + glob.glob(os.path.join(V, "dontcare", "C*")))
 def sh(cmd, **k):
     return subprocess.run(cmd, shell=True, capture_output=True, text=True, **k)
 assert sh('git -C /repo diff --quiet').returncode == 0, '/repo dirty'
